@@ -259,7 +259,91 @@ def search(ctx, case, what):
     return None
 
 
+# ---- matrix pullback kernels vs the formulas whose adjoint identities are proved (Proofs/MatPullback.lean) ----------
+def _tm(a, b):
+    D = a.shape[0]
+    out = np.zeros((D,) + (a[0] @ b[0]).shape)
+    for d in range(D):
+        for c in range(d + 1):
+            out[d] += a[c] @ b[d - c]
+    return out
+
+
+def _tT(a):
+    return np.transpose(a, (0, 2, 1))
+
+
+def make_matpb_case(rng, tier):
+    import ops
+    fn = rng.choice(['dot', 'inv', 'solve', 'trace', 'det'])
+    D, P, n = rng.randint(1, 4), rng.choice([1, 2]), rng.randint(1, 3)
+    c = {'matpb': fn, 'D': D, 'P': P}
+    if fn == 'dot':
+        k, m = rng.randint(1, 3), rng.randint(1, 3)
+        c['x'], c['y'] = rand_coeffs(rng, (D, P, n, k), -2, 2), rand_coeffs(rng, (D, P, k, m), -2, 2)
+        c['zbar'] = rand_coeffs(rng, (D, P, n, m), -1, 1)
+    elif fn == 'solve':
+        k = rng.randint(1, 2)
+        c['x'], c['y'] = ops.gen_square(rng, D, P, n), rand_coeffs(rng, (D, P, n, k), -2, 2)
+        c['zbar'] = rand_coeffs(rng, (D, P, n, k), -1, 1)
+    else:
+        c['x'] = ops.gen_square(rng, D, P, n)
+        c['zbar'] = rand_coeffs(rng, (D, P, n, n) if fn == 'inv' else (D, P), -1, 1)
+    return c
+
+
+def matpb_mismatch(case):
+    fn, D, P = case['matpb'], case['D'], case['P']
+    x, zb = np.array(case['x']), np.array(case['zbar'])
+    X, ZB = UTPM(x.copy()), UTPM(zb.copy())
+    if fn == 'dot':
+        y = np.array(case['y'])
+        Y = UTPM(y.copy())
+        Z = UTPM.dot(X, Y)
+        xbar, ybar = UTPM.pb_dot(ZB, X, Y, Z)
+        for p in range(P):
+            if not close(xbar.data[:, p], _tm(zb[:, p], _tT(y[:, p])), 1e-9) or not close(ybar.data[:, p], _tm(_tT(x[:, p]), zb[:, p]), 1e-9):
+                return 'matpb-dot: pb_dot differs from (Zbar Y^T, X^T Zbar) in Taylor arithmetic'
+    elif fn == 'inv':
+        Y = UTPM.inv(X)
+        xbar = UTPM.pb_inv(ZB, X, Y)
+        for p in range(P):
+            yp = Y.data[:, p]
+            if not close(xbar.data[:, p], -_tm(_tT(yp), _tm(zb[:, p], _tT(yp))), 1e-8):
+                return 'matpb-inv: pb_inv differs from -Y^T Ybar Y^T in Taylor arithmetic'
+    elif fn == 'solve':
+        y = np.array(case['y'])
+        B = UTPM(y.copy())
+        Z = UTPM.solve(X, B)
+        xbar, bbar = UTPM.pb_solve(ZB, X, B, Z)
+        Yi = UTPM.inv(X)
+        for p in range(P):
+            T = _tm(_tT(Yi.data[:, p]), zb[:, p])
+            if not close(bbar.data[:, p], T, 1e-8) or not close(xbar.data[:, p], -_tm(T, _tT(Z.data[:, p])), 1e-8):
+                return 'matpb-solve: pb_solve differs from (Bbar = Y^T Zbar, Xbar = -Bbar Z^T) in Taylor arithmetic'
+    elif fn == 'trace':
+        yv = UTPM.trace(X)
+        xbar = UTPM.pb_trace(ZB, X, yv)
+        n = x.shape[2]
+        want = zb[:, :, None, None] * np.eye(n)
+        if not close(xbar.data, want, 1e-12):
+            return 'matpb-trace: pb_trace differs from ybar * I'
+    else:
+        yv = UTPM.det(X)
+        xbar = UTPM.pb_det(ZB, X, yv)
+        Yi = UTPM.inv(X)
+        for p in range(P):
+            # Xbar = (ybar * det X) Y^T as series
+            s = np.array([sum(zb[c_, p] * yv.data[d - c_, p] for c_ in range(d + 1)) for d in range(D)])
+            want = np.array([sum(s[c_] * _tT(Yi.data[:, p])[d - c_] for c_ in range(d + 1)) for d in range(D)])
+            if not close(xbar.data[:, p], want, 1e-7):
+                return 'matpb-det: pb_det differs from ybar det(X) inv(X)^T in Taylor arithmetic'
+    return None
+
+
 def replay_case(ctx, case):
+    if 'matpb' in case:
+        return matpb_mismatch(case)
     if 'pb' in case:
         return pb_mismatch(ctx, case)
     return adjoint_fails(case)
@@ -290,6 +374,17 @@ def run(ctx):
             do(make_case(rng, ctx.tier, prog=p), 'single-op')
     for i in range(250 if ctx.tier == 'quick' else 4000):
         do(make_case(rng, ctx.tier), 'generated')
+    # matrix pullback kernels vs the formulas of Proofs/MatPullback.lean
+    for i in range(120 if ctx.tier == 'quick' else 1500):
+        case = make_matpb_case(rng, ctx.tier)
+        ctx.evaluations += 1
+        ctx.count('matpb=' + case['matpb'])
+        try:
+            f = matpb_mismatch(case)
+        except Exception as ex:
+            f = 'exception-matpb-%s: %s' % (case['matpb'], (str(ex).strip().splitlines() or [type(ex).__name__])[-1][:100])
+        if f:
+            ctx.report(case, 'failure', f)
     # correspondence of the modelled pullback kernels (functional: the proved local adjoint is about these)
     for i in range(200 if ctx.tier == 'quick' else 3000):
         case = make_pb_case(rng, ctx.tier)
